@@ -1,4 +1,182 @@
-(** placeholder; replaced below *)
-From Coq Require Import ZArith.
-Example C18_placeholder : (1 + 1 = 2)%Z. Proof. reflexivity. Qed.
-Print Assumptions C18_placeholder.
+(** Props/C18.v — C18: frame pianorolls and note sequences convert back and
+    forth without drift.  Only statements, [exact], and [Print Assumptions].
+
+    Notation used in the statements (all defined in Model/FramesRoll.v and
+    Proofs/FramesRoll*.v):
+      sframe fps t = int(t * fps)            eframe fps t = int(math.ceil(t * fps))
+      ftime fps i  = i * (1 / fps)           frames_from_times = the nested helper
+      decode_spans F On Off = every (pitch index, start frame, end frame) handed
+                              to end_pitch by pianoroll_to_note_sequence
+      mget m i p   = cell (frame i, pitch p) of a matrix, silent outside it
+      eff F On Off p i = (frames OR onset predictions) AND NOT offset predictions
+      grid_roundtrip fps mn F = sequence_to_pianoroll(pianoroll_to_note_sequence(F)).active
+
+    The unconditional round-trip statement
+
+      forall fps in {8,16,31.25,32,50,62.5,100}, forall rectangular F,
+        forall i p, mget (grid_roundtrip fps mn F) i p = mget F i p
+
+    is FALSE of the code as it is (finding F14): see [C18_grid_roundtrip_refuted].
+    It is proved under the explicit boolean premise [grid_premise] (frame index
+    arithmetic exact at every run boundary), and the premise is proved for every
+    power-of-two frame rate. *)
+From Coq Require Import ZArith List Bool Reals.
+From Flocq Require Import Core.
+From NS Require Import Base.FloatBridge Gen.G18 Model.FramesRoll
+  Proofs.FramesRoll Proofs.FramesRollFloat Proofs.FramesRollGrid.
+Import ListNotations.
+Local Open Scope Z_scope.
+
+(** ** frames_basic: frame index arithmetic of sequence_to_pianoroll *)
+
+(* every note fills at least one frame, whatever the times, rate and occupancy threshold *)
+Theorem C18_frames_at_least_one : forall fps occ s e,
+  fst (frames_from_times fps occ s e) + 1 <= snd (frames_from_times fps occ s e).
+Proof. exact frames_at_least_one_proof. Qed.
+Print Assumptions C18_frames_at_least_one.
+
+(* with the occupancy test off (threshold not > 0.0): start = int(s*fps), end = max(start+1, ceil(e*fps)) *)
+Theorem C18_frames_no_occupancy : forall fps occ s e, gt0 occ = false ->
+  frames_from_times fps occ s e = (sframe fps s, Z.max (sframe fps s + 1) (eframe fps e)).
+Proof. exact fft_no_occupancy. Qed.
+Print Assumptions C18_frames_no_occupancy.
+
+(* with any occupancy threshold the start moves by at most one frame and the end by at most one *)
+Theorem C18_frames_bounds : forall fps occ s e,
+  let sf := fst (frames_from_times fps occ s e) in
+  let ef := snd (frames_from_times fps occ s e) in
+  sframe fps s <= sf <= sframe fps s + 1 /\ sf + 1 <= ef /\
+  (ef = sf + 1 \/ eframe fps e - 1 <= ef <= eframe fps e).
+Proof. exact fft_bounds. Qed.
+Print Assumptions C18_frames_bounds.
+
+(* int(x) is the floor of the rounded product for non-negative times *)
+Theorem C18_start_frame_is_floor : forall fps s,
+  (0 <= R_of (PrimFloat.mul s fps))%R -> sframe fps s = Zfloor (R_of (PrimFloat.mul s fps)).
+Proof. exact (fun fps s => trunc_floor (PrimFloat.mul s fps)). Qed.
+Print Assumptions C18_start_frame_is_floor.
+
+(* int(math.ceil(x)) is the ceiling of the rounded product (frame numbers below 2^53) *)
+Theorem C18_end_frame_is_ceil : forall fps e,
+  fin (PrimFloat.mul e fps) -> (Rabs (R_of (PrimFloat.mul e fps)) < bpow radix2 53)%R ->
+  eframe fps e = Zceil (R_of (PrimFloat.mul e fps)).
+Proof. exact (fun fps e => fceil_Zceil (PrimFloat.mul e fps)). Qed.
+Print Assumptions C18_end_frame_is_ceil.
+
+(* frame numbers are monotone in the time *)
+Theorem C18_start_frame_monotone : forall fps s s',
+  fin fps -> fin s -> fin s' -> (0 <= R_of fps)%R -> (R_of s <= R_of s')%R ->
+  (Rabs (R_of s * R_of fps) <= bpow radix2 1000)%R -> (Rabs (R_of s' * R_of fps) <= bpow radix2 1000)%R ->
+  sframe fps s <= sframe fps s'.
+Proof. exact sframe_mono. Qed.
+Print Assumptions C18_start_frame_monotone.
+
+Theorem C18_end_frame_monotone : forall fps e e',
+  fin fps -> fin e -> fin e' -> (0 <= R_of fps)%R -> (R_of e <= R_of e')%R ->
+  (Rabs (R_of e * R_of fps) <= bpow radix2 52)%R -> (Rabs (R_of e' * R_of fps) <= bpow radix2 52)%R ->
+  eframe fps e <= eframe fps e'.
+Proof. exact eframe_mono. Qed.
+Print Assumptions C18_end_frame_monotone.
+
+(** ** runs_decoded: the run-length decoder (all matrices, all onset / offset predictions) *)
+
+(* For every pitch the spans handed to end_pitch are exactly the declarative note spans
+   (a note starts exactly where "active and onset predicted" rises, runs while the pitch stays
+   active and no new start occurs, and stops there), and each is emitted once. *)
+Theorem C18_runs_decoded : forall F On Off T P,
+  (0 < T)%nat -> rect F T P -> orect On T P -> orect Off T P ->
+  forall p, 0 <= p < Z.of_nat P ->
+  NoDup (pitch_spans p (decode_spans F On Off)) /\
+  forall a b, In (p, a, b) (decode_spans F On Off) <-> note_span (eff F On Off p) (onf On p) a b.
+Proof. exact runs_decoded_proof. Qed.
+Print Assumptions C18_runs_decoded.
+
+(* nothing is emitted for a pitch outside the matrix *)
+Theorem C18_decoded_pitch_in_range : forall F On Off T P,
+  (0 < T)%nat -> rect F T P -> orect On T P -> orect Off T P ->
+  forall p a b, In (p, a, b) (decode_spans F On Off) -> 0 <= p < Z.of_nat P.
+Proof. exact decode_spans_pitch_range. Qed.
+Print Assumptions C18_decoded_pitch_in_range.
+
+(* without predictions: exactly the maximal runs of active frames of each pitch
+   (a run touching the last frame is closed by the appended silent frame) *)
+Theorem C18_runs_decoded_plain : forall F T P, (0 < T)%nat -> rect F T P ->
+  forall p a b, In (p, a, b) (decode_spans F None None) <->
+                (0 <= p < Z.of_nat P /\ maximal_run (fun i => mget F i p) a b).
+Proof. exact runs_decoded_plain_proof. Qed.
+Print Assumptions C18_runs_decoded_plain.
+
+(* notes of the result = spans that pass the minimum-duration test, with times frame * (1/fps) *)
+Theorem C18_min_duration : forall fps md mmp F On Off d,
+  In d (snd (p2s fps md mmp F On Off)) <->
+  exists p a b, In (p, a, b) (decode_spans F On Off) /\
+                PrimFloat.leb md (PrimFloat.mul (PrimFloat.sub (ftime fps b) (ftime fps a)) f1000) = true /\
+                d = {| d_pitch := p + mmp; d_start := ftime fps a; d_end := ftime fps b |}.
+Proof. exact p2s_notes_proof. Qed.
+Print Assumptions C18_min_duration.
+
+(* pianoroll_onsets_to_note_sequence: one note of fixed duration per set cell *)
+Theorem C18_onsets_one_note_per_cell : forall fps dur mmp m d,
+  In d (snd (onsets2s fps dur mmp m)) <->
+  exists i p, mget m i p = true /\
+              d = {| d_pitch := p + mmp; d_start := ftime fps i; d_end := PrimFloat.add (ftime fps i) dur |}.
+Proof. exact onsets2s_notes_proof. Qed.
+Print Assumptions C18_onsets_one_note_per_cell.
+
+(** ** The grid round trip *)
+
+(* roll -> notes -> roll is the identity (up to trailing silent frames) whenever the frame
+   index arithmetic is exact at every run boundary *)
+Theorem C18_grid_roundtrip_exact : forall fps mn F T P,
+  (0 < T)%nat -> rect F T P -> grid_premise fps F = true ->
+  forall i p, mget (grid_roundtrip fps mn F) i p = mget F i p.
+Proof. exact grid_roundtrip_exact_proof. Qed.
+Print Assumptions C18_grid_roundtrip_exact.
+
+(* power-of-two frame rates (8, 16, 32, ...): every frame below 2^53 is exact *)
+Theorem C18_grid_exact_pow2 : forall fps k, fin fps -> R_of fps = bpow radix2 k -> -64 <= k <= 64 ->
+  forall a, 0 <= a < 2 ^ 53 -> frame_exact fps a = true.
+Proof. exact frame_exact_pow2. Qed.
+Print Assumptions C18_grid_exact_pow2.
+
+(* ... hence the premise holds for every roll ... *)
+Theorem C18_grid_premise_pow2 : forall fps k F T P,
+  fin fps -> R_of fps = bpow radix2 k -> -64 <= k <= 64 ->
+  (0 < T)%nat -> rect F T P -> Z.of_nat T < 2 ^ 52 ->
+  grid_premise fps F = true.
+Proof. exact grid_premise_pow2. Qed.
+Print Assumptions C18_grid_premise_pow2.
+
+(* ... and the round trip is exact, unconditionally, at those rates *)
+Theorem C18_grid_roundtrip_pow2 : forall fps k mn F T P,
+  fin fps -> R_of fps = bpow radix2 k -> -64 <= k <= 64 ->
+  (0 < T)%nat -> rect F T P -> Z.of_nat T < 2 ^ 52 ->
+  forall i p, mget (grid_roundtrip fps mn F) i p = mget F i p.
+Proof. exact grid_roundtrip_pow2_proof. Qed.
+Print Assumptions C18_grid_roundtrip_pow2.
+
+(* F14: at 100 fps a note starting at frame 29 (0.29 s) comes back starting at frame 28 *)
+Theorem C18_grid_roundtrip_refuted :
+  rect f14_roll 31 1 /\
+  mget f14_roll 28 0 = false /\ mget (grid_roundtrip fps100 21 f14_roll) 28 0 = true /\
+  grid_premise fps100 f14_roll = false.
+Proof. exact grid_roundtrip_refuted_proof. Qed.
+Print Assumptions C18_grid_roundtrip_refuted.
+
+Theorem C18_frame_inexact_100 :
+  sframe fps100 (ftime fps100 29) = 28 /\ eframe fps100 (ftime fps100 7) = 8 /\
+  frame_exact fps100 29 = false /\ frame_exact fps100 7 = false.
+Proof. exact frame_inexact_100. Qed.
+Print Assumptions C18_frame_inexact_100.
+
+(** ** Non-vacuity *)
+Example C18_premise_nonvacuous :
+  rect demo_roll 5 2 /\ grid_premise (fz 16) demo_roll = true /\
+  decode_spans demo_roll None None = [(0, 0, 2); (0, 3, 4); (1, 2, 5)] /\
+  grid_premise (fz 50) demo_roll = true.
+Proof. exact grid_premise_nonvacuous_proof. Qed.
+Print Assumptions C18_premise_nonvacuous.
+
+Example C18_pow2_rate_nonvacuous : fin (fz 16) /\ R_of (fz 16) = bpow radix2 4.
+Proof. exact pow2_rate_nonvacuous_proof. Qed.
+Print Assumptions C18_pow2_rate_nonvacuous.
